@@ -1,6 +1,6 @@
 use crate::{GameServer, META_STATE};
 use futures_util::{StreamExt, TryStreamExt};
-use kube::runtime::watcher::Config;
+use kube::runtime::watcher::{Config, Event};
 use kube::runtime::{WatchStreamExt, watcher};
 use kube::{Api, Client};
 use passage_adapters::discovery::DiscoveryAdapter;
@@ -45,27 +45,26 @@ impl AgonesDiscoveryAdapter {
             Api::all(client.clone())
         };
 
-        // create the watch stream
-        let mut stream = watcher(servers, watch_config)
-            .default_backoff()
-            .applied_objects()
-            .boxed();
+        // create the watch stream (raw events, such that deletions and re-lists are observed as well)
+        let mut stream = watcher(servers, watch_config).default_backoff().boxed();
 
         // start listener
         let _inner = Arc::clone(&inner);
         let _token = token.clone();
         tokio::spawn(async move {
             info!("starting game server watcher");
+            // the game servers of a (re-)list that is still in progress
+            let mut listed: Option<Vec<Target>> = None;
             loop {
                 // get next server update
-                let maybe_server = tokio::select! {
+                let maybe_event = tokio::select! {
                     biased;
                     _ = _token.cancelled() => break,
-                    maybe_server = stream.try_next() => maybe_server,
+                    maybe_event = stream.try_next() => maybe_event,
                 };
 
-                let server = match maybe_server {
-                    Ok(Some(server)) => server,
+                let event = match maybe_event {
+                    Ok(Some(event)) => event,
                     Ok(None) => break,
                     Err(err) => {
                         warn!(err = ?err, "error while watching game servers");
@@ -73,39 +72,74 @@ impl AgonesDiscoveryAdapter {
                     }
                 };
 
-                // map to target
-                let target: Target = match server.try_into() {
-                    Ok(target) => target,
-                    Err(err) => {
-                        warn!(err = ?err, "error while converting game server to target");
-                        continue;
+                match event {
+                    // a (re-)list starts, collect its game servers and replace the cache afterwards
+                    Event::Init => listed = Some(Vec::new()),
+                    Event::InitApply(server) => {
+                        if let Some(target) = ready_target(server) {
+                            listed.get_or_insert_with(Vec::new).push(target);
+                        }
                     }
-                };
-
-                // if ready, replace or push
-                let mut inner = _inner.write().await;
-                let state = target.meta.get(META_STATE).cloned().unwrap_or_default();
-                if state == "Ready" || state == "Allocated" {
-                    info!(uid = target.identifier, "adding game server to cache");
-                    let found = inner.iter_mut().find(|i| i.identifier == target.identifier);
-                    match found {
-                        Some(found) => *found = target,
-                        None => inner.push(target),
+                    // game servers that were not listed do not exist anymore
+                    Event::InitDone => {
+                        if let Some(listed) = listed.take() {
+                            info!(len = listed.len(), "replacing game server cache");
+                            *_inner.write().await = listed;
+                        }
                     }
-                    continue;
-                }
-
-                // remove
-                info!(uid = target.identifier, "removing game server from cache");
-                let found = inner.iter().position(|i| i.identifier == target.identifier);
-                if let Some(found) = found {
-                    inner.swap_remove(found);
+                    // if ready, replace or push, else remove
+                    Event::Apply(server) => {
+                        let Some(identifier) = server.metadata.name.clone() else {
+                            continue;
+                        };
+                        let mut inner = _inner.write().await;
+                        let found = inner.iter().position(|i| i.identifier == identifier);
+                        match (ready_target(server), found) {
+                            (Some(target), Some(found)) => {
+                                info!(uid = identifier, "updating game server in cache");
+                                inner[found] = target;
+                            }
+                            (Some(target), None) => {
+                                info!(uid = identifier, "adding game server to cache");
+                                inner.push(target);
+                            }
+                            (None, Some(found)) => {
+                                info!(uid = identifier, "removing game server from cache");
+                                inner.swap_remove(found);
+                            }
+                            (None, None) => {}
+                        }
+                    }
+                    Event::Delete(server) => {
+                        let Some(identifier) = server.metadata.name.clone() else {
+                            continue;
+                        };
+                        info!(uid = identifier, "removing deleted game server from cache");
+                        let mut inner = _inner.write().await;
+                        let found = inner.iter().position(|i| i.identifier == identifier);
+                        if let Some(found) = found {
+                            inner.swap_remove(found);
+                        }
+                    }
                 }
             }
         });
 
         Ok(Self { inner, token })
     }
+}
+
+/// Converts a game server into a target if it can be offered to players (convertible and ready).
+fn ready_target(server: GameServer) -> Option<Target> {
+    let target: Target = match server.try_into() {
+        Ok(target) => target,
+        Err(err) => {
+            warn!(err = ?err, "error while converting game server to target");
+            return None;
+        }
+    };
+    let state = target.meta.get(META_STATE).map(String::as_str).unwrap_or_default();
+    (state == "Ready" || state == "Allocated").then_some(target)
 }
 
 impl Drop for AgonesDiscoveryAdapter {
